@@ -898,6 +898,11 @@ func (c *Compiler) BuildModule(module *parse.Module, m parse.Node) schema.Model 
 	c.CheckChildren(m, m)
 	rpcs := make(map[string]schema.Rpc)
 	for _, r := range m.ChildrenByType(parse.NodeRpc) {
+		// (as for data nodes: absent when an if-feature is off or the
+		// rpc is deviated not-supported)
+		if c.IgnoreNode(r, schema.Current) {
+			continue
+		}
 		input := r.ChildByType(parse.NodeInput)
 		inputTree := c.buildSchemaTree(m, input)
 
@@ -910,6 +915,9 @@ func (c *Compiler) BuildModule(module *parse.Module, m parse.Node) schema.Model 
 
 	notifications := make(map[string]schema.Notification)
 	for _, n := range m.ChildrenByType(parse.NodeNotification) {
+		if c.IgnoreNode(n, schema.Current) {
+			continue
+		}
 		notificationTree := c.buildSchemaTree(m, n)
 		notification := schema.NewNotification(notificationTree)
 		notifications[n.Name()] = c.extendNotification(n, notification)
